@@ -33,6 +33,7 @@ EXTENDS Integers, Sequences, FiniteSets, TLC, Json, AnyLifetime
 CONSTANTS Anys, Types,
           Vals,            \* payload values the model checker stores
           Fuses,           \* fuse settings explored (0 = no fault)
+          AFuses,          \* allocation-failure fuse settings explored (0 = none; n: the n-th `new T` of the call throws bad_alloc)
           InPlaceTypes,    \* !requires_allocation<T>: nothrow move, size <= 2 words, alignment fits
           NothrowMove,     \* types whose move constructor is noexcept
           SelfSwapGuard,   \* the `if (this == &rhs) return;` of proposed fix C06-01
@@ -52,18 +53,27 @@ TT  == NA + 3      \* storage_union tmp_storage inside vtable_stack::swap
 ARG == NA + 4      \* the caller's value / the object returned by a value any_cast
 Loc == 1..(NA + 4)
 
-Untracked == {"Int", "Str", "CStr", "Fn", "Sp", "Ov", "Nest"}     \* as Any!UntrackedTypes
+Untracked == {"Int", "Str", "CStr", "Fn", "Sp", "Ov", "Nest", "Ov32", "Ov64", "P16", "P17", "Var", "Fs", "Opt"}     \* as Any!UntrackedTypes
 Counted   == {"Sp", "Nest"}                                      \* as Any!CountedTypes
 NoThrowCp == {"NC"} \cup Untracked                               \* as Any!NothrowCopy
 InPlace(t) == t \in InPlaceTypes
 Capable(t, kind) == (kind = "copy" /\ t \notin NoThrowCp) \/ (kind = "move" /\ t \notin NothrowMove)   \* may throw: counts on the fuse
 
-Start(f) ==
+Start0(f) ==
     [vt   |-> [l \in Loc |-> IF l \in Anys THEN vt[l] ELSE "raw"],
      sto  |-> [l \in Loc |-> IF l \in Anys /\ vt[l] \in Types THEN l ELSE 0],
      val  |-> [i \in {k \in Anys : vt[k] \in Types} |-> pv[i]],
      rc   |-> [v \in Vals |-> Cardinality({k \in Anys : vt[k] \in Counted /\ pv[k] = v})],
-     evs  |-> <<>>, nid |-> NA + 1, fuse |-> f, threw |-> FALSE]
+     evs  |-> <<>>, nid |-> NA + 1, fuse |-> f, threw |-> FALSE, afuse |-> 0, afail |-> FALSE]
+StartG(g) == [Start0(g.fuse) EXCEPT !.afuse = IF "afuse" \in DOMAIN g THEN g.afuse ELSE 0]
+Start(f) == Start0(f)
+
+(* `new T(...)` for a type that requires allocation: operator new runs before T's constructor; with the allocation fuse at 1
+   it throws bad_alloc (the machine stops like after a throwing constructor, but without a throw event) *)
+Alloc(M, t) ==
+    IF M.threw \/ InPlace(t) THEN M
+    ELSE IF M.afuse = 1 THEN [M EXCEPT !.afuse = 0, !.threw = TRUE, !.afail = TRUE]
+    ELSE IF M.afuse > 1 THEN [M EXCEPT !.afuse = @ - 1] ELSE M
 
 ----------------------------------------------------------------------------
 (* payload level *)
@@ -93,7 +103,7 @@ VtDestroy(M, t, s) ==
     IF InPlace(t) THEN PDtor(M, M.sto[s], t)                      \* reinterpret_cast<T*>(&storage.stack)->~T()
     ELSE IF M.sto[s] # 0 THEN PDtor(M, M.sto[s], t) ELSE M        \* delete reinterpret_cast<T*>(storage.dynamic)
 
-VtCopy(M, t, s, d) == PCtor(M, t, "copy", M.sto[s], 0, d)         \* new (&dest.stack) T(src) / dest.dynamic = new T(*src)
+VtCopy(M, t, s, d) == PCtor(Alloc(M, t), t, "copy", M.sto[s], 0, d)         \* new (&dest.stack) T(src) / dest.dynamic = new T(*src)
 
 VtMove(M, t, s, d) ==
     IF InPlace(t)
@@ -124,7 +134,7 @@ AnyMoveCtor(M, s, d) ==                                           \* any(any&& r
 
 AnyValueCtor(M, d, t, kind, src) ==                               \* any(ValueType&&) -> construct()
     IF M.threw THEN M
-    ELSE LET M1 == PCtor([M EXCEPT !.vt[d] = t], t, kind, src, 0, d) IN   \* vtable = vtable_for_type<T>(); new T(forward(value))
+    ELSE LET M1 == PCtor(Alloc([M EXCEPT !.vt[d] = t], t), t, kind, src, 0, d) IN   \* vtable = vtable_for_type<T>(); new T(forward(value))
          IF M1.threw THEN [M1 EXCEPT !.vt[d] = "raw"] ELSE M1
 
 AnyClear(M, s) ==                                                 \* clear() / reset()
@@ -155,7 +165,7 @@ ValueCastForms == {"v_m", "v_mc", "v_c", "v_cc", "v_r", "v_rc"}
 FormKind(f) == IF f = "rv" THEN "move" ELSE "copy"     \* T&& binds to the move constructor, T&, const T&, const T&& to the copy constructor
 
 Run(op, k, g) ==
-    LET M0 == Start(g.fuse) IN
+    LET M0 == StartG(g) IN
     CASE op = "DefaultConstruct" -> [M0 EXCEPT !.vt[k] = "null"]
       [] op = "Construct" ->
             LET M1 == PCtor(M0, g.t, "value", 0, g.v, ARG)                     \* T x(v);
@@ -194,7 +204,8 @@ Run(op, k, g) ==
 
 NoRes == [exc |-> "none", null |-> FALSE, id |-> 0, v |-> 0, loc |-> 0, ty |-> ""]
 Res(op, k, g, M0, M) ==
-    IF M.threw THEN [NoRes EXCEPT !.exc = "fuse"]
+    IF M.afail THEN [NoRes EXCEPT !.exc = "bad_alloc"]
+    ELSE IF M.threw THEN [NoRes EXCEPT !.exc = "fuse"]
     ELSE CASE op = "HasValue" -> [NoRes EXCEPT !.v = IF M0.vt[k] = "null" THEN 0 ELSE 1]       \* !empty()
            [] op = "Empty"    -> [NoRes EXCEPT !.v = IF M0.vt[k] = "null" THEN 1 ELSE 0]       \* vtable == nullptr
            [] op = "Type"     -> [NoRes EXCEPT !.ty = IF M0.vt[k] = "null" THEN "void" ELSE M0.vt[k]]
@@ -228,11 +239,11 @@ PostOf(M) == [k \in Anys |-> IF M.vt[k] = "raw" THEN RAWc ELSE IF M.vt[k] = "nul
 PostU(M)  == [k \in Anys |-> IF M.vt[k] \in Untracked THEN [t |-> M.vt[k], v |-> ValAt(M, k), loc |-> M.sto[k]] ELSE NoUc]
 PostSpc(M) == [v \in {w \in DOMAIN M.rc : M.rc[w] # 0} |-> M.rc[v]]
 
-A == INSTANCE Any WITH a <- AbsA, u <- AbsU, lt <- AbsL, env <- [noexc |-> FALSE], last <- last, pre <- last
+A == INSTANCE Any WITH a <- AbsA, u <- AbsU, lt <- AbsL, env <- [noexc |-> FALSE, mov |-> FALSE], last <- last, pre <- last
 
 Do(op, k, g) ==
     /\ A!Pre(op, k, g)
-    /\ LET M0 == Start(g.fuse)
+    /\ LET M0 == StartG(g)
            M  == Run(op, k, g)
        IN /\ vt' = [i \in Anys |-> M.vt[i]]
           /\ pv' = [i \in Anys |-> IF M.vt[i] \in Types /\ M.sto[i] \in DOMAIN M.val THEN M.val[M.sto[i]] ELSE 0]
@@ -246,13 +257,13 @@ CastFormsAll == {"p_m", "p_mc", "p_c", "p_cc", "p_n", "p_nc", "v_m", "v_mc", "v_
 CastTargets == Types \cup {"CharP"}
 
 NDefaultConstruct == \E k \in Anys, f \in Fuses : Do("DefaultConstruct", k, [fuse |-> f])
-NConstruct   == \E k \in Anys, f \in Fuses, t \in Types, v \in Vals, fm \in ValueForms \cup {"decay"} :
-                    fm \in FormsOf(t) /\ Do("Construct", k, [t |-> t, v |-> v, form |-> fm, fuse |-> f])
-NAssignValue == \E k \in Anys, f \in Fuses, t \in Types, v \in Vals, fm \in ValueForms \cup {"decay"} :
-                    fm \in FormsOf(t) /\ Do("AssignValue", k, [t |-> t, v |-> v, form |-> fm, fuse |-> f])
-NCopyConstruct == \E k \in Anys, f \in Fuses, j \in Anys : Do("CopyConstruct", k, [j |-> j, fuse |-> f])
+NConstruct   == \E k \in Anys, f \in Fuses, af \in AFuses, t \in Types, v \in Vals, fm \in ValueForms \cup {"decay"} :
+                    fm \in FormsOf(t) /\ Do("Construct", k, [t |-> t, v |-> v, form |-> fm, fuse |-> f, afuse |-> af])
+NAssignValue == \E k \in Anys, f \in Fuses, af \in AFuses, t \in Types, v \in Vals, fm \in ValueForms \cup {"decay"} :
+                    fm \in FormsOf(t) /\ Do("AssignValue", k, [t |-> t, v |-> v, form |-> fm, fuse |-> f, afuse |-> af])
+NCopyConstruct == \E k \in Anys, f \in Fuses, af \in AFuses, j \in Anys : Do("CopyConstruct", k, [j |-> j, fuse |-> f, afuse |-> af])
 NMoveConstruct == \E k \in Anys, f \in Fuses, j \in Anys : Do("MoveConstruct", k, [j |-> j, fuse |-> f])
-NCopyAssign  == \E k \in Anys, f \in Fuses, j \in Anys : Do("CopyAssign", k, [j |-> j, fuse |-> f])
+NCopyAssign  == \E k \in Anys, f \in Fuses, af \in AFuses, j \in Anys : Do("CopyAssign", k, [j |-> j, fuse |-> f, afuse |-> af])
 NMoveAssign  == \E k \in Anys, f \in Fuses, j \in Anys : Do("MoveAssign", k, [j |-> j, fuse |-> f])
 NSwap        == \E k \in Anys, f \in Fuses, j \in Anys : Do("Swap", k, [j |-> j, fuse |-> f])
 NStdSwap     == \E k \in Anys, f \in Fuses, j \in Anys : Do("StdSwap", k, [j |-> j, fuse |-> f])
